@@ -97,6 +97,10 @@ class BBAN(common.Base):
     def __init__(self, country_code: str, value: str) -> None:
         self.country_code = country_code
 
+    def __getnewargs__(self) -> tuple[str, str]:
+        # Needed by copy and pickle since ``__new__`` takes the country code as well.
+        return (self.country_code, str(self))
+
     @classmethod
     def from_components(cls, country_code: str, **values: str) -> BBAN:
         """Generate a BBAN from its national components.
